@@ -298,3 +298,46 @@ func init() {
 	})
 	ext("os.Hostname", func(fr *frame, a []value) value { return tuple{"host", iface{}} })
 }
+
+func errnoOf(v value) (uintptr, bool) {
+	e, ok := v.(iface)
+	if !ok || e.t == nil {
+		return 0, false
+	}
+	switch x := e.v.(type) {
+	case uintptr:
+		if n, ok := e.t.(*types.Named); ok && n.Obj().Name() == "Errno" {
+			return x, true
+		}
+	case *value:
+		// *fs.PathError / *os.LinkError / *os.SyscallError: look at the Err field
+		if x == nil {
+			return 0, false
+		}
+		if st, ok := (*x).(structure); ok {
+			for _, f := range st {
+				if fi, ok := f.(iface); ok && fi.t != nil {
+					if n, ok := errnoOf(fi); ok {
+						return n, true
+					}
+				}
+			}
+		}
+	}
+	return 0, false
+}
+
+func init() {
+	externals["os.IsNotExist"] = func(fr *frame, a []value) value {
+		n, ok := errnoOf(a[0])
+		return ok && n == 2
+	}
+	externals["os.IsExist"] = func(fr *frame, a []value) value {
+		n, ok := errnoOf(a[0])
+		return ok && n == 17
+	}
+	externals["os.IsPermission"] = func(fr *frame, a []value) value {
+		n, ok := errnoOf(a[0])
+		return ok && n == 13
+	}
+}
